@@ -402,14 +402,14 @@ Section Main.
       r7 f d (Tk (if q then TyDQuoted else TyIdent) n :: ts) = Val (GIdent n "", ts).
   Proof.
     intros f d q n ts H. unfold cont8 in H. split_or H.
-    unfold r7, primary. destruct q; cbn; rewrite H, Ho1; cbn [bind]; rewrite Ho0; reflexivity.
+    unfold r7, primary. destruct q; cbn; rewrite H, Ho4; cbn [bind]; rewrite Ho3; reflexivity.
   Qed.
 
   Lemma prim_qident : forall f d t n ts, cont8 (cur ts) = false ->
       r7 f d (Tk TyIdent t :: Tk TyPeriod "." :: Tk TyIdent n :: ts) = Val (GIdent n t, ts).
   Proof.
     intros f d t n ts H. unfold cont8 in H. split_or H.
-    unfold r7, primary. cbn. rewrite Ho0. reflexivity.
+    unfold r7, primary. cbn. rewrite Ho3. reflexivity.
   Qed.
 
   Lemma prim_num : forall f d s ts, r7 f d (Tk TyNumber s :: ts) = Val (GLit (Some s) (num_type s), ts).
@@ -469,7 +469,7 @@ Section Main.
     unfold r7, primary. cbn. subst toks. cbn [app cur].
     rewrite (starts_not t TySelect Hst eq_refl), (starts_not t TyWith Hst eq_refl). cbn [orb].
     rewrite PE_S. unfold expr_body. destruct (Nat.ltb_spec md (S d)); [lia|].
-    unfold r0 in Hr. cbn [app] in Hr. rewrite Hr. cbn. rewrite Ho0. reflexivity.
+    unfold r0 in Hr. cbn [app] in Hr. rewrite Hr. cbn. rewrite Ho3. reflexivity.
   Qed.
 
   (* ---------------------------------------------------------------------------------------------- *)
@@ -568,7 +568,7 @@ Section Main.
       parse_data_type (type_toks t ++ rest) = Val (type_str t, rest).
   Proof.
     intros [n a] rest Ha Hc. cbn in Ha. subst a. unfold cont8 in Hc. split_or Hc.
-    unfold parse_data_type, type_toks, type_str. cbn. rewrite Hc. cbn. rewrite Ho0. reflexivity.
+    unfold parse_data_type, type_toks, type_str. cbn. rewrite Hc. cbn. rewrite Ho3. reflexivity.
   Qed.
 
   Lemma prim_cast : forall f d ts x t rest,
